@@ -226,7 +226,12 @@ def path_cases(draw, min_n: int, max_n: int):
     n = game["n"]
     k0 = draw(knowledge_sets(n)) if n <= 6 else seeded_knowledge(n, draw(st.integers(0, 2**31)))
     unknown = [s for s in range(1 << n) if s not in set(k0)]
-    order = draw(st.permutations(unknown)) if unknown else []
+    if n >= 8:
+        # large tables: a short seeded walk (the first reveals are where a mis-ordered structure table shows)
+        import random
+        order = random.Random(draw(st.integers(0, 2**31))).sample(unknown, min(6, len(unknown)))
+    else:
+        order = draw(st.permutations(unknown)) if unknown else []
     return {"kind": "path", "game": game, "computer": comp, "K0": k0, "order": list(order)}
 
 
@@ -257,12 +262,13 @@ def plan(tier: str) -> list[dict]:
                 {"mode": "path", "min_n": 5, "max_n": 5, "examples": 120, "cost": 3},
                 {"mode": "path", "min_n": 5, "max_n": 5, "examples": 120, "cost": 3},
                 {"mode": "path", "min_n": 5, "max_n": 6, "examples": 60, "cost": 3},
+                {"mode": "path", "min_n": 9, "max_n": 9, "examples": 4, "cost": 3},
                 {"mode": "envpath", "min_n": 3, "max_n": 5, "examples": 100, "cost": 3}]
     return ([{"mode": "lattice", "n": 3, "sam": s, "examples": 400, "cost": 2} for s in (False, True)]
             + [{"mode": "lattice", "n": 4, "sam": False, "examples": 40, "cost": 10} for _ in range(5)]
             + [{"mode": "lattice", "n": 4, "sam": True, "examples": 30, "cost": 10} for _ in range(3)]
             + [{"mode": "path", "min_n": 5, "max_n": 6, "examples": 300, "cost": 8} for _ in range(5)]
-            + [{"mode": "path", "min_n": 7, "max_n": 7, "examples": 12, "cost": 8}]
+            + [{"mode": "path", "min_n": 7, "max_n": 7, "examples": 12, "cost": 8}, {"mode": "path", "min_n": 8, "max_n": 10, "examples": 12, "cost": 8}]
             + [{"mode": "envpath", "min_n": 3, "max_n": 5, "examples": 600, "cost": 8} for _ in range(2)])
 
 
